@@ -237,11 +237,13 @@ RecvDHCommit(s, m, fresh, hi) ==
 RecvDHKey(s, m) ==
   CASE s.auth = "awDHKey" ->
          IF m.gy = -2 THEN Res(s, <<>>, NoText, TRUE, <<>>)
-         ELSE IF s.agy # 0 THEN Res(s, <<>>, NoText, FALSE, <<>>)
-         ELSE LET s1 == WithOwnTag([s EXCEPT !.agy = m.gy, !.asess = SortedPair(s.ax, m.gy),
-                                             !.sess = IF KF_EarlySSID THEN SortedPair(s.ax, m.gy) ELSE @, !.akid = s.akid + 1,
+         \* a value is already stored only if an earlier attempt got as far as storing it and then failed
+         \* (the randomness source): the first value stays, the exchange goes on with it
+         ELSE LET gy == IF s.agy # 0 THEN s.agy ELSE m.gy
+                  s1 == WithOwnTag([s EXCEPT !.agy = gy, !.asess = SortedPair(s.ax, gy),
+                                             !.sess = IF KF_EarlySSID THEN SortedPair(s.ax, gy) ELSE @, !.akid = s.akid + 1,
                                              !.rev = IF KF_EarlySSID THEN TRUE ELSE @, !.auth = "awSig"])
-                  xs == SigBlob("R", s1.ax, m.gy, s1.me, s1.akid)
+                  xs == SigBlob("R", s1.ax, gy, s1.me, s1.akid)
               IN Res(s1, <<RevealSigMsg(s1, s1.ax, xs)>>, NoText, FALSE, <<>>)
     [] s.auth = "awSig" ->
          IF m.gy = -2 THEN Res(s, <<>>, NoText, TRUE, <<>>)
